@@ -58,9 +58,6 @@ theorem All2.mem_right {α β : Type} {R : α → β → Prop} {as : List α} {b
     · obtain ⟨a, ha, hr⟩ := ih b hb
       exact ⟨a, List.mem_cons_of_mem _ ha, hr⟩
 
-theorem lookup_cons {β : Type} (k k' : Nat) (v : β) (r : List (Nat × β)) :
-    lookup k ((k', v) :: r) = if k' = k then some v else lookup k r := rfl
-
 /-- Lookup through two zips with the same names. -/
 theorem All2.lookup_zip {α β : Type} {R : α → β → Prop} {as : List α} {bs : List β}
     (h : All2 R as bs) : ∀ (names : List Nat) (k : Nat),
@@ -87,114 +84,6 @@ theorem lookup_zip_self {β : Type} (k : Nat) (l : List (Nat × β)) :
   | cons p r ih =>
     obtain ⟨k', v⟩ := p
     simp only [List.map_cons, List.zip_cons_cons, lookup_cons, ih]
-
-theorem lookup_some_mem_keys {β : Type} {k : Nat} {l : List (Nat × β)} {v : β}
-    (h : lookup k l = some v) : k ∈ l.map (·.1) := by
-  induction l with
-  | nil => cases h
-  | cons p r ih =>
-    obtain ⟨k', v'⟩ := p
-    rw [lookup_cons] at h
-    by_cases hk : k' = k
-    · simp [hk]
-    · simp only [hk, if_false] at h
-      simp [ih h]
-
-theorem lookup_some_mem {β : Type} {k : Nat} {l : List (Nat × β)} {v : β}
-    (h : lookup k l = some v) : (k, v) ∈ l := by
-  induction l with
-  | nil => cases h
-  | cons p r ih =>
-    obtain ⟨k', v'⟩ := p
-    rw [lookup_cons] at h
-    by_cases hk : k' = k
-    · simp only [hk, if_true, Option.some.injEq] at h
-      simp [hk, h]
-    · simp only [hk, if_false] at h
-      exact List.mem_cons_of_mem _ (ih h)
-
-theorem lookup_isSome_of_mem_keys {β : Type} {k : Nat} {l : List (Nat × β)}
-    (h : k ∈ l.map (·.1)) : (lookup k l).isSome = true := by
-  induction l with
-  | nil => cases h
-  | cons p r ih =>
-    obtain ⟨k', v'⟩ := p
-    rw [lookup_cons]
-    by_cases hk : k' = k
-    · simp [hk]
-    · simp only [hk, if_false]
-      apply ih
-      simp only [List.map_cons, List.mem_cons] at h
-      rcases h with h | h
-      · exact absurd h.symm hk
-      · exact h
-
-/-! ### `dictSet` / `dictUpdate` -/
-
-theorem lookup_dictSet (k k' : Name) (v : Val) (l : List (Name × Val)) :
-    lookup k (dictSet k' v l) = if k' = k then some v else lookup k l := by
-  induction l with
-  | nil => simp [dictSet, lookup]
-  | cons p r ih =>
-    obtain ⟨k'', v''⟩ := p
-    simp only [dictSet]
-    by_cases h1 : k'' = k'
-    · subst h1
-      simp only [if_true, lookup_cons]
-      by_cases h2 : k'' = k <;> simp [h2]
-    · simp only [h1, if_false, lookup_cons, ih]
-      by_cases h2 : k'' = k
-      · subst h2
-        simp [Ne.symm h1]
-      · simp [h2]
-
-theorem dictUpdate_cons (base : List (Name × Val)) (p : Name × Val) (new : List (Name × Val)) :
-    dictUpdate base (p :: new) = dictSet p.1 p.2 (dictUpdate base new) := rfl
-
-theorem lookup_dictUpdate (k : Name) (base new : List (Name × Val)) :
-    lookup k (dictUpdate base new) =
-      match lookup k new with
-      | some v => some v
-      | none => lookup k base := by
-  induction new with
-  | nil => rfl
-  | cons p r ih =>
-    obtain ⟨k', v'⟩ := p
-    rw [dictUpdate_cons, lookup_dictSet, lookup_cons, ih]
-    by_cases h : k' = k <;> simp [h]
-
-theorem mem_dictSet {k : Name} {v : Val} {l : List (Name × Val)} {p : Name × Val}
-    (h : p ∈ dictSet k v l) : p = (k, v) ∨ p ∈ l := by
-  induction l with
-  | nil =>
-    simp only [dictSet, List.mem_singleton] at h
-    exact Or.inl h
-  | cons q r ih =>
-    obtain ⟨k'', v''⟩ := q
-    simp only [dictSet] at h
-    by_cases h1 : k'' = k
-    · simp only [h1, if_true, List.mem_cons] at h
-      rcases h with h | h
-      · exact Or.inl h
-      · exact Or.inr (List.mem_cons_of_mem _ h)
-    · simp only [h1, if_false, List.mem_cons] at h
-      rcases h with h | h
-      · exact Or.inr (by simp [h])
-      · rcases ih h with h | h
-        · exact Or.inl h
-        · exact Or.inr (List.mem_cons_of_mem _ h)
-
-theorem mem_dictUpdate {base new : List (Name × Val)} {p : Name × Val}
-    (h : p ∈ dictUpdate base new) : p ∈ base ∨ p ∈ new := by
-  induction new with
-  | nil => exact Or.inl h
-  | cons q r ih =>
-    rw [dictUpdate_cons] at h
-    rcases mem_dictSet h with h | h
-    · exact Or.inr (by simp [h])
-    · rcases ih h with h | h
-      · exact Or.inl h
-      · exact Or.inr (List.mem_cons_of_mem _ h)
 
 /-! ### `mapOpt` -/
 
@@ -420,7 +309,7 @@ theorem initStep_ext (ct : ClassTable) (hct : CTOk ct) (c : ClsId) (ci : ClassIn
   | true =>
     simp only [if_true] at h
     obtain ⟨hE, hnames, hvals⟩ := instAttrs_ext_of_eq ct hct s1 c ci hci hb h
-    refine ⟨hE.weaken (fun f => f.elim), ?_, ?_⟩
+    refine ⟨hE, ?_, ?_⟩
     · intro p hp
       obtain ⟨y, hy, h1, h2, h3⟩ := hvals p hp
       rw [hy]
@@ -626,24 +515,6 @@ theorem pickleRoundTrip_inv {ct : ClassTable} {n : Nat} {objs objs0 objs' : Oid 
     · rename_i st w hr
       cases h
       exact ⟨t, st, ht, hr, rfl, rfl⟩
-
-/-- Allocation-only steps keep a closed heap closed. -/
-theorem Ext.closed_heap {A : Prop} {st st' : State} (hE : Ext A st st')
-    (hcl : Closed st.objs st.next) : Closed st'.objs st'.next where
-  bound := hE.bound
-  refs := by
-    intro x o ho y hy
-    by_cases hx : x < st.next
-    · rw [hE.old x hx] at ho
-      have hs := hcl.refs x o ho y hy
-      have hylt : y < st.next := by
-        apply Nat.lt_of_not_le
-        intro hle
-        rw [hcl.bound y hle] at hs
-        cases hs
-      rw [hE.old y hylt]
-      exact hs
-    · exact (hE.closed x o (Nat.le_of_not_lt hx) ho _ hy).2.2
 
 /-- Everything reachable from a value produced by an allocation-only step that lies in the
 allocated range was allocated by that step. -/
